@@ -261,12 +261,19 @@ Inductive attempt :=
 
 (* what the attempt does, step by step: is a session established; is it closed again by the attempt
    itself; how many keep-alive (and receive) loops are started *)
-Record outcome := { o_session : bool; o_closed : bool; o_loops : nat }.
+(* the client's connection state (EventManager.CurrentState) once the attempt has returned *)
+Inductive cstate :=
+| CsEstablished    (* StateSessionEstablished, published by connect() *)
+| CsDisconnected   (* StateDisconnected *)
+| CsAsBefore.      (* what it was before the attempt / what the failing connect() left *)
+Record outcome := { o_session : bool; o_closed : bool; o_loops : nat; o_state : cstate }.
 Definition run_attempt (a : attempt) : outcome :=
   match a with
-  | AttOk => {| o_session := true; o_closed := false; o_loops := 1 |}
-  | AttConnectFails => {| o_session := false; o_closed := false; o_loops := 0 |}
-  | AttHookFails => {| o_session := true; o_closed := true; o_loops := 0 |}   (* closeUnattendedSession *)
+  | AttOk => {| o_session := true; o_closed := false; o_loops := 1; o_state := CsEstablished |}
+  | AttConnectFails => {| o_session := false; o_closed := false; o_loops := 0; o_state := CsAsBefore |}
+  | AttHookFails =>   (* closeUnattendedSession: the session is closed and the state it had published taken back;
+                         no event: the attempt is reported by the error Connect / Resume returns *)
+      {| o_session := true; o_closed := true; o_loops := 0; o_state := CsDisconnected |}
   end.
 Definition loops_started (a : attempt) : nat := o_loops (run_attempt a).
 (* a session is left up behind the attempt *)
@@ -297,3 +304,16 @@ Definition session_report (e : session_end) : nat * nat :=
   | SeStreamError => (2, 1)
   | SeHandedOver => (1, 0)
   end.
+
+(* ---- Client.Disconnect (also StreamManager.Stop): the end of the session the application asks for ----
+   The keep-alive of the current connection is stopped FIRST (the quit channel has one closer, shared by the
+   receive loop and Disconnect: whoever comes first); then the transport is closed: closing tag, wait for the
+   peer's (up to ConnectTimeout), connection closed. *)
+Inductive dstep :=
+| DStopKeepalive     (* closes quit: ECloseQuit for the loop *)
+| DWriteCloseTag
+| DWaitPeer
+| DCloseConn.
+Definition client_disconnect : list dstep := [DStopKeepalive; DWriteCloseTag; DWaitPeer; DCloseConn].
+(* the loop's environment from the moment Disconnect is called: quit is closed before anything else happens *)
+Definition disconnect_events (rest : list ev) : list ev := ECloseQuit :: rest.
